@@ -2,6 +2,7 @@ package rules
 
 import (
 	"go/token"
+	"go/types"
 	"strings"
 
 	"golang.org/x/tools/go/ssa"
@@ -21,14 +22,13 @@ func isNanoTime(f *ssa.Function) bool {
 func clockBracket(c *core.Ctx, r *core.Report, fn *ssa.Function, frame ssa.CallInstruction, recorders func(*ssa.Function) bool, allowedBetween func(*ssa.Function) bool) {
 	key := core.FuncName(fn)
 	var durs []ssa.Value
-	var recCalls []ssa.CallInstruction
-	for _, call := range an.AllCalls(fn) {
-		t := an.Callee(call)
-		if t == nil || !recorders(t) {
+	var recCalls []ssa.Instruction
+	for _, e := range recordEvents(fn) {
+		if !recorders(an.Callee(e.Ev.Call())) {
 			continue
 		}
-		recCalls = append(recCalls, call)
-		durs = append(durs, call.Common().Args[len(call.Common().Args)-1])
+		recCalls = append(recCalls, e.Ev.Instr)
+		durs = append(durs, e.Dur)
 	}
 	if len(durs) == 0 {
 		r.Undecided(key+"#recorders", c.Pos(fn.Pos()), "no recording call found")
@@ -109,7 +109,9 @@ func c17(c *core.Ctx, r *core.Report) {
 		runner, _, frame := iterationRunner(c)
 		clockBracket(c, r, runner, frame,
 			func(t *ssa.Function) bool { return isStatsRecord(t) || isMetricsIter(t) },
-			func(t *ssa.Function) bool { return isMethod(t, testingPkg, "T", "Failed") })
+			func(t *ssa.Function) bool {
+				return isMethod(t, testingPkg, "T", "Failed") || an.IsFunc(t, metricsPkg, "Result")
+			})
 		setup, _, sframe := setupRunner(c)
 		clockBracket(c, r, setup, sframe,
 			func(t *ssa.Function) bool { return isMethod(t, metricsPkg, "Metrics", "RecordSetupResult") },
@@ -124,7 +126,8 @@ func c17(c *core.Ctx, r *core.Report) {
 		dr := c.MustFn(ppkg, "DurationStats.Record")
 		for _, call := range an.AllCalls(dr) {
 			if isMethod(an.Callee(call), progressPkg, "IterationDurations", "Add") {
-				r.Check(an.D().Of(call.Common().Args[1]) == "$nanoseconds" && strings.HasSuffix(an.D().Of(call.Common().Args[0]), ".running"), "DurationStats.Record#value", an.Pos(c, call), "recorded into the per-period accumulator unchanged", "DurationStats.Record adds "+an.D().Of(call.Common().Args[1])+" to "+an.D().Of(call.Common().Args[0]))
+				hotClass, _ := progressRoles(c)
+				r.Check(an.D().Of(call.Common().Args[1]) == "$nanoseconds" && strings.HasSuffix(an.D().Of(call.Common().Args[0]), "."+fieldOfClass(hotClass)), "DurationStats.Record#value", an.Pos(c, call), "recorded into the per-period accumulator unchanged", "DurationStats.Record adds "+an.D().Of(call.Common().Args[1])+" to "+an.D().Of(call.Common().Args[0]))
 			}
 		}
 		add := c.MustFn(ppkg, "IterationDurations.Add")
@@ -145,53 +148,46 @@ func c17(c *core.Ctx, r *core.Report) {
 	})
 
 	rule(r, "C17.R2", "aggregation correspondences: merge/drain pair each field with the same-named field and cover sum, count, min, max; Snapshot maps Count←count, Min←min, Max←max, Average←sum/count with a zero-count guard", func() {
-		fields := []string{"sum", "count", "min", "max"}
-		for _, fname := range []string{"IterationDurations.Update", "IterationDurations.drainInto"} {
-			fn := c.Fn(ppkg, fname)
-			if fn == nil {
-				if fname == "IterationDurations.drainInto" {
-					// any function swapping the accumulators serves as the drain
-					for _, g := range c.AllFuncs {
-						if core.RelPkg(g) == ppkg {
-							for _, op := range an.AtomicOps([]*ssa.Function{g}) {
-								if op.Op == "Swap" {
-									fn = g
-								}
-							}
-						}
-					}
-				}
-				if fn == nil {
-					r.Undecided(fname, "-", "function not found")
-					continue
+		hotClass, lifeClass := progressRoles(c)
+		// every atomic field of the accumulator type
+		var fields []string
+		acc := c.Named(ppkg, "IterationDurations").Underlying().(*types.Struct)
+		for i := 0; i < acc.NumFields(); i++ {
+			fields = append(fields, acc.Field(i).Name())
+		}
+		merged, cleared := map[string]bool{}, map[string]bool{}
+		for _, s := range durationAtomics(c) {
+			if s.Op == "Load" || len(s.Call.Common().Args) < 2 {
+				continue
+			}
+			// clearing the per-period accumulator
+			if has(s.classes, hotClass) && (s.Op == "Swap" || s.Op == "Store") {
+				if k, ok := s.Call.Common().Args[1].(*ssa.Const); ok && k.Value != nil && k.Int64() == 0 {
+					cleared[s.Field.Name()] = true
 				}
 			}
-			covered := map[string]bool{}
-			for _, op := range an.AtomicOps([]*ssa.Function{fn}) {
-				if op.Op == "Load" || len(op.Call.Common().Args) < 2 {
-					continue
-				}
-				// the value written comes (possibly through a local) from an atomic read of another instance
-				src := stripAllocs(op.Call.Common().Args[1])
-				sc, ok := src.(*ssa.Call)
-				if !ok {
-					continue
-				}
-				t := an.Callee(sc)
-				if t == nil || t.Pkg == nil || t.Pkg.Pkg.Path() != "sync/atomic" {
-					continue
-				}
-				sf := an.FieldOfAddr(sc.Call.Args[0])
-				if sf == nil {
-					continue
-				}
-				key := fn.Name() + "#" + op.Field.Name() + "←" + sf.Name()
-				covered[op.Field.Name()] = true
-				r.Check(sf.Name() == op.Field.Name(), key, an.Pos(c, op.Call), op.Field.Name()+" merged from "+sf.Name(), "field "+op.Field.Name()+" is fed from the other instance's "+sf.Name()+": the aggregate is corrupted")
+			// transfers between instances
+			src, ok := stripAllocs(s.Call.Common().Args[1]).(*ssa.Call)
+			if !ok {
+				continue
 			}
-			for _, f := range fields {
-				r.Check(covered[f], fn.Name()+"#covers-"+f, c.Pos(fn.Pos()), fn.Name()+" handles "+f, fn.Name()+" does not carry "+f+" over: the "+f+" of a period never reaches the lifetime figures (or is never cleared)")
+			t := an.Callee(src)
+			if t == nil || t.Pkg == nil || t.Pkg.Pkg.Path() != "sync/atomic" {
+				continue
 			}
+			sf := an.FieldOfAddr(src.Call.Args[0])
+			if sf == nil || an.D().Of(src.Call.Args[0].(*ssa.FieldAddr).X) == an.D().Of(s.Call.Common().Args[0].(*ssa.FieldAddr).X) {
+				continue
+			}
+			key := s.Fn.Name() + "#" + s.Field.Name() + "←" + sf.Name()
+			r.Check(sf.Name() == s.Field.Name(), key, an.Pos(c, s.Call), s.Field.Name()+" fed from the other instance's "+sf.Name(), "field "+s.Field.Name()+" is fed from the other instance's "+sf.Name()+": the aggregate is corrupted")
+			if has(s.classes, lifeClass) && sf.Name() == s.Field.Name() {
+				merged[s.Field.Name()] = true
+			}
+		}
+		for _, f := range fields {
+			r.Check(merged[f], "merge#covers-"+f, "-", "the lifetime "+f+" is fed from a period's "+f, "no merge carries "+f+" into the lifetime accumulator: lifetime figures ignore it")
+			r.Check(cleared[f], "drain#clears-"+f, "-", "the per-period "+f+" is cleared by the drain", "the drain does not clear the per-period "+f+": the next period's figures include the previous ones")
 		}
 		snap := c.MustFn(ppkg, "IterationDurations.Snapshot")
 		for _, ret := range an.Returns(snap) {
@@ -233,8 +229,9 @@ func c17(c *core.Ctx, r *core.Report) {
 
 	rule(r, "C17.R3", "lifetime count and sum only grow: on the lifetime accumulators they are touched only by Add and Load", func() {
 		n := 0
+		_, lifeClass := progressRoles(c)
 		for _, s := range durationAtomics(c) {
-			if !has(s.classes, "DurationStats.lifetime") || !(s.Field.Name() == "count" || s.Field.Name() == "sum") {
+			if !has(s.classes, lifeClass) || !(s.Field.Name() == "count" || s.Field.Name() == "sum") {
 				continue
 			}
 			n++
